@@ -13,6 +13,7 @@ import Mashu.Cache
 import Mashu.Lazy
 import Mashu.Share
 import Mashu.Hooks
+import Mashu.Namespace
 import Mashu.Generated
 open Lean
 
@@ -349,6 +350,24 @@ def natList (j : Json) : Except String (List Nat) := do
     | .num n => if n.exponent == 0 && n.mantissa ≥ 0 then pure n.mantissa.toNat else throw "bad code point"
     | _ => throw "bad code point")
 
+/-- C17: replay of the registrations of one builder; clean_id -/
+def dispatchNamespace (op : String) (j : Json) : Except String Json := do
+  match op with
+  | "namespace" => do
+      let regs ← (← arr (j.getObjValD "regs")).toList.mapM (fun e => do
+        let a ← arr e
+        let o ← (match a[1]! with | .num n => pure n.mantissa.toNat | _ => throw "bad obj")
+        pure ((← str a[0]!), o))
+      let g := Namespace.register [] regs
+      pure (Json.mkObj [("globals", Json.arr (g.map (fun kv => Json.arr #[Json.str kv.1, Json.num (JsonNumber.fromNat kv.2)])).toArray)])
+  | _ => do
+      let s ← natList (j.getObjValD "s")
+      let word ← natList (j.getObjValD "word")
+      let digit ← natList (j.getObjValD "digit")
+      let idc ← natList (j.getObjValD "idcont")
+      let r := Namespace.cleanId (fun c => word.contains c.toNat) (fun c => digit.contains c.toNat) (fun c => idc.contains c.toNat) (s.map Char.ofNat)
+      pure (Json.mkObj [("id", Json.arr (r.map (fun c => Json.num (JsonNumber.fromNat c.toNat))).toArray)])
+
 /-- C16: repr and the literal lexer on code points -/
 def dispatchQuote (op : String) (j : Json) : Except String Json := do
   let s ← natList (j.getObjValD "s")
@@ -382,6 +401,7 @@ def dispatch (j : Json) : Except String Json := do
   | "lazy" => dispatchLazy j
   | "share" => dispatchShare j
   | "hooks" => dispatchHooks j
+  | "namespace" | "cleanid" => dispatchNamespace op j
   | _ => throw s!"unknown op {op}"
 
 end Mashu
